@@ -2,6 +2,7 @@ import Cirbo.Proofs.GenWeighted
 import Cirbo.Proofs.GenBasis
 import Cirbo.Proofs.GenPow2
 import Cirbo.Proofs.GenCostX
+import Cirbo.Generated.DocBounds
 /-!
 # C07 — Summation generators compute exact sums within the promised basis
 
@@ -20,6 +21,7 @@ import Cirbo.Proofs.GenCostX
 -- OBLIGATION: c07_gate_count_sum_n_bits_easy
 -- OBLIGATION: c07_gate_count_weighted_naive
 -- OBLIGATION: c07_gate_count_weighted_partial
+-- OBLIGATION: c07_documented_bounds_hold
 -- THOROUGH-WITNESS: Cirbo.Proofs.GenCostWitness Cirbo.weighted_xaig_documented_bound_fails
 -- PARTIAL: gate counts: the documented bounds are proved for add_sum_n_bits (4.5n-2m in XAIG, 7n-3m in AIG), add_sum_n_bits_easy (5n), add_sum_n_weighted_bits_naive (5n-2m, 7n-3m) and add_sum_n_weighted_bits in AIG (7n-3m) — in each case a slightly stronger bound, by a cost semantics of generator programs (Cost, run_cost) and potential arguments. For add_sum_n_weighted_bits in XAIG the documented 4.5n-2m is FALSE (open known finding; Proofs/GenCostWitness.lean exhibits a run of the model with n=35, m=13 and 132 gates, kernel-evaluated in the thorough tier; the harness exhibits it on the code): the theorem proved is 4.5n-1.5m (c07_gate_count_weighted_partial). add_sum_pow2_m1 documents no bound. Termination within the model fuel (no "fuel" failure) is by correspondence. XAIG membership is immediate (every type of the regenerated table is a binary gate type: ttType_ok); weights are naturals in the model.
 -/
@@ -173,6 +175,70 @@ theorem c07_gate_count_weighted_partial {st st' : GSt} {ins out : List (Nat × L
   obtain ⟨b, hb, h1, h2⟩ := cost_addSumWeighted hc
   exact ⟨n, b, hl, hb, h1, h2⟩
 
+/-- a gate count within a documented bound "not more than `A/2·n − B/2·m`" (the pair is regenerated from
+the function's docstring on every run; `none` = the docstring states no such bound) -/
+def WithinDoc (doc : Option (Nat × Nat)) (new n m : Nat) : Prop := ∀ A B, doc = some (A, B) → 2 * new + B * m ≤ A * n
+
+/-- **the bounds the docstrings state hold** — for `add_sum_n_bits` (both bases), `add_sum_n_weighted_bits_naive`
+(both bases), `add_sum_n_weighted_bits` in AIG and `add_sum_n_bits_easy`, against the constants read from the
+current docstrings (`Generated/DocBounds.lean`). The one documented bound that does not hold —
+`add_sum_n_weighted_bits` in XAIG — is absent from this theorem (see `c07_gate_count_weighted_partial`). -/
+theorem c07_documented_bounds_hold :
+    (∀ {st st' : GSt} {ins out : List Label} {basis : BasisArg} {be : Bool},
+      (addSumNBits ins basis be).run st = .ok (out, st') →
+      ∃ new b, st'.c.gates.length = st.c.gates.length + new ∧ basis.resolve = .ok b ∧
+        (b = .xaig → WithinDoc Gen.doc_add_sum_n_bits_xaig new ins.length out.length) ∧
+        (b = .aig → WithinDoc Gen.doc_add_sum_n_bits_aig new ins.length out.length)) ∧
+    (∀ {st st' : GSt} {ins out : List (Nat × Label)} {basis : BasisArg},
+      (addSumWeightedNaive ins basis).run st = .ok (out, st') →
+      ∃ new b, st'.c.gates.length = st.c.gates.length + new ∧ basis.resolve = .ok b ∧
+        (b = .xaig → WithinDoc Gen.doc_add_sum_n_weighted_bits_naive_xaig new ins.length out.length) ∧
+        (b = .aig → WithinDoc Gen.doc_add_sum_n_weighted_bits_naive_aig new ins.length out.length)) ∧
+    (∀ {st st' : GSt} {ins out : List (Nat × Label)} {basis : BasisArg},
+      (addSumWeighted ins basis).run st = .ok (out, st') →
+      ∃ new b, st'.c.gates.length = st.c.gates.length + new ∧ basis.resolve = .ok b ∧
+        (b = .aig → WithinDoc Gen.doc_add_sum_n_weighted_bits_aig new ins.length out.length)) ∧
+    (∀ {st st' : GSt} {ins out : List Label} {be : Bool},
+      (addSumNBitsEasy ins be).run st = .ok (out, st') →
+      ∃ new, st'.c.gates.length = st.c.gates.length + new ∧
+        ∀ A, Gen.doc_add_sum_n_bits_easy = some A → 2 * new ≤ A * ins.length) := by
+  refine ⟨?_, ?_, ?_, ?_⟩
+  · intro st st' ins out basis be h
+    obtain ⟨new, b, hl, hb, h1, h2⟩ := c07_gate_count_sum_n_bits h
+    refine ⟨new, b, hl, hb, ?_, ?_⟩
+    · intro e A B hd
+      have := h1 e
+      simp only [Gen.doc_add_sum_n_bits_xaig, Option.some.injEq, Prod.mk.injEq] at hd
+      obtain ⟨rfl, rfl⟩ := hd; omega
+    · intro e A B hd
+      have := h2 e
+      simp only [Gen.doc_add_sum_n_bits_aig, Option.some.injEq, Prod.mk.injEq] at hd
+      obtain ⟨rfl, rfl⟩ := hd; omega
+  · intro st st' ins out basis h
+    obtain ⟨new, b, hl, hb, h1, h2⟩ := c07_gate_count_weighted_naive h
+    refine ⟨new, b, hl, hb, ?_, ?_⟩
+    · intro e A B hd
+      have := h1 e
+      simp only [Gen.doc_add_sum_n_weighted_bits_naive_xaig, Option.some.injEq, Prod.mk.injEq] at hd
+      obtain ⟨rfl, rfl⟩ := hd; omega
+    · intro e A B hd
+      have := h2 e
+      simp only [Gen.doc_add_sum_n_weighted_bits_naive_aig, Option.some.injEq, Prod.mk.injEq] at hd
+      obtain ⟨rfl, rfl⟩ := hd; omega
+  · intro st st' ins out basis h
+    obtain ⟨new, b, hl, hb, _, h2⟩ := c07_gate_count_weighted_partial h
+    refine ⟨new, b, hl, hb, ?_⟩
+    intro e A B hd
+    have := h2 e
+    simp only [Gen.doc_add_sum_n_weighted_bits_aig, Option.some.injEq, Prod.mk.injEq] at hd
+    obtain ⟨rfl, rfl⟩ := hd; omega
+  · intro st st' ins out be h
+    obtain ⟨new, hl, h1⟩ := c07_gate_count_sum_n_bits_easy h
+    refine ⟨new, hl, ?_⟩
+    intro A hd
+    simp only [Gen.doc_add_sum_n_bits_easy, Option.some.injEq] at hd
+    subst hd; omega
+
 #print axioms c07_generators_only_add_fresh_gates
 #print axioms c07_tt_table_is_correct
 #print axioms c07_sum_n_bits
@@ -189,5 +255,6 @@ theorem c07_gate_count_weighted_partial {st st' : GSt} {ins out : List (Nat × L
 #print axioms c07_gate_count_sum_n_bits_easy
 #print axioms c07_gate_count_weighted_naive
 #print axioms c07_gate_count_weighted_partial
+#print axioms c07_documented_bounds_hold
 
 end Cirbo
